@@ -331,6 +331,13 @@ Proof.
   apply ctor_step; auto. apply ctor_range_ok; auto using sel_len.
 Qed.
 
+Lemma xstep_CtorArr s t xs : xrefines_at s (CtorArr t xs).
+Proof.
+  intros Ha Hb s1 out H. open_xmut H Hpre.
+  apply ctor_step; auto. rewrite move_insert_eq. rewrite <- (ins_nil xs) at 2.
+  apply insert_range_ok; auto using fresh_repr, sel_len; unfold len in *; cbn [length]; lia.
+Qed.
+
 Lemma xstep_CopyIndep s t d x : xrefines_at s (CopyIndep t d x).
 Proof.
   intros Ha Hb s1 out H. cbn [xspec_step] in H. cbn [xstep].
@@ -365,6 +372,7 @@ Proof.
   - apply xstep_CtorN.
   - apply xstep_CtorNVal.
   - apply xstep_CtorRange.
+  - apply xstep_CtorArr.
   - apply xstep_CopyIndep.
 Qed.
 
